@@ -103,6 +103,11 @@ def run(repo: Repo, rep: Report, tier: str) -> None:
     _registry_granularity(repo, rep)
     from ..core import regget
     regget.report(repo, rep, "R12.6", {"annotated-inherit"})
+    from . import c05 as _c05
+    from ..core.report import Only as _Only2
+    _c05._exception_classes(repo, _Only2(rep, {"R05.12"}))
+    from ..core import helper_contracts as _hc3
+    _hc3.report(repo, rep, "R12.7", _hc3.subclass_walk_contract(repo), "mashumaro.core.meta.helpers::iter_all_subclasses")
 
 def _check_helper(rep: Report, cfg, name: str, fn: ast.FunctionDef, r: Rendered) -> None:
     body = fn.body
@@ -320,3 +325,9 @@ def _python_level(repo: Repo, rep: Report) -> None:
 _ADDENDUM = ' R12.5: the variant registry attribute is at least as specialised as the variant method name (fresh per dispatcher, or per format). R12.6: Registry.get leaves annotated_type alone for non-Annotated types, so a Discriminator written outside Optional / List stays visible.'
 EXPLANATION += _ADDENDUM
 LEVEL_TEXT += _ADDENDUM
+_ADD6 = " Borrowed: R05.12 (no library exception is a KeyError / AttributeError that the dispatcher's handlers would swallow)."
+EXPLANATION += _ADD6
+LEVEL_TEXT += _ADD6
+_ADD7 = ' R12.7: iter_all_subclasses walks the whole subclass tree unconditionally.'
+EXPLANATION += _ADD7
+LEVEL_TEXT += _ADD7
